@@ -37,6 +37,81 @@ def observe(case):
     return rec
 
 
+def molproj(m):
+    idx = {n: i + 1 for i, n in enumerate(m._atoms)}
+    return {'atoms': [{'n': n, 'z': a.atomic_number, 'c': a._charge, 'i': a._isotope or 0, 'h': chy.ival(a._implicit_hydrogens),
+                       'r': 1 if a._is_radical else 0, 'p': 2, 'hm': 0} for n, a in m._atoms.items()],
+            'bonds': sorted([min(idx[n], idx[k]), max(idx[n], idx[k]), int(b._order)] for n, k, b in m.bonds()), 'ct': []}
+
+
+def observe_line(case):
+    """a whole input line: SMILES part, optional CXSMILES block"""
+    from chython import smiles
+    text = case['s']
+    kind, val = chy.outcome(smiles, text)
+    parts = text.split()
+    rec = {'s': chars(parts[0]) if parts else [], 'cx': chars(parts[1]) if len(parts) > 1 else [], 'out': kind, 'rx': 0,
+           'roles': [[], [], []]}
+    if kind != 'ok':
+        rec['exc'] = val
+        return rec
+    if hasattr(val, '_atoms'):
+        rec['roles'] = [[molproj(val)], [], []]
+    else:
+        rec['rx'] = 1
+        rec['roles'] = [[molproj(m) for m in val.reactants], [molproj(m) for m in val.reagents], [molproj(m) for m in val.products]]
+    return rec
+
+
+POOL = ['C', 'CC', 'O', 'N', 'CO', 'C=O', 'OC=O', 'CC(=O)O', '[Na+]', '[Cl-]', '[K+]', '[OH-]', 'C[O]', '[CH3]', 'C[CH2]', 'c1ccccc1', 'c1ccncc1', 'CCN(CC)CC',
+        'ClCCl', 'BrC1CC1', 'C#N', '[NH4+]', 'OS(=O)(=O)O', 'CC(C)=O', 'C1CCOC1', 'Cc1ccccc1', '[Pd]', 'O=C(Cl)c1ccccc1', 'NCc1ccccc1', 'C[N+](C)(C)C', '[O-]C=O',
+        '[13CH4]', 'F/C=C/F', 'C[C@H](N)O', '[CH2:1]=[CH2:2]', '[CH3:3][OH:4]']
+
+
+def gen_lines(rnd, n):
+    out = []
+    for _ in range(n):
+        kind = rnd.random()
+        if kind < .25:       # molecule (possibly multi-component) with radicals
+            mols = [rnd.choice(POOL) for _ in range(rnd.choice([1, 1, 2, 3]))]
+            line = '.'.join(mols)
+            roles = None
+        else:
+            cnt = [rnd.choice([0, 1, 1, 2, 3]) for _ in range(3)]
+            if sum(cnt) == 0:
+                cnt[rnd.randrange(3)] = 1
+            roles = [[rnd.choice(POOL) for _ in range(c)] for c in cnt]
+            line = '>'.join('.'.join(r) for r in roles)
+            if rnd.random() < .06:
+                line = line.replace('>', '', 1) if rnd.random() < .5 else line + '>C'
+        natoms = sum(1 for ch in line if ch.isalpha() and ch.isupper() or ch in 'cnos') + 2   # rough upper bound
+        cx = []
+        mode = rnd.random()
+        if mode < .35:
+            k = rnd.choice([1, 1, 2, 3])
+            idx = sorted(rnd.sample(range(max(1, natoms + (3 if rnd.random() < .15 else -2))), min(k, max(1, natoms - 2))))
+            cx.append('^1:' + ','.join(map(str, idx)))
+        elif mode < .6 and roles is not None:
+            total = sum(len(r) for r in roles)
+            groups = []
+            base = 0
+            for r in roles:
+                if len(r) >= 2 and rnd.random() < .7:
+                    a = rnd.randrange(len(r) - 1)
+                    b = a + 1 if rnd.random() < .8 or len(r) < 3 else len(r) - 1
+                    if a != b:
+                        groups.append(f'{base + a}.{base + b}')
+                base += len(r)
+            if rnd.random() < .1 and total >= 2:
+                groups.append(f'0.{total - 1}')
+            if groups:
+                cx.append('f:' + ','.join(groups))
+        if cx:
+            line += ' |' + ','.join(cx) + '|'
+        out.append(line)
+    return sorted(set(out))
+
+
 def all_strings(alphabet, maxlen):
     for L in range(1, maxlen + 1):
         for t in itertools.product(alphabet, repeat=L):
@@ -125,6 +200,17 @@ def run(ck):
         ck.count('rejected', sum(1 for r in recs if r['out'] == 'valueerror'))
         ck.count('stereo-atoms', sum(1 for r in recs for a in r['atoms'] if a['p'] != 2))
         ck.count('stereo-bonds', sum(len(r['ct']) for r in recs))
+    # line level: reactions, dots, CXSMILES radicals and fragment groups
+    lines = gen_lines(rnd, 1500 if ck.quick else 20000)
+    lines += ['C>>C', 'C>C', 'C>>>C', '>>C', 'C>>', '>C>', '>>', 'C.C>>C', 'CC[O] |^1:2|', 'CC[O] |^1:3|', 'C[CH2] |^1:1|', '[CH3].[CH3] |^1:0,1|',
+              'C>O>CN |^1:3|', 'C>O>CN |^1:1|', 'C.O>N.[Na+]>CO.Cl |f:0.1,2.3,4.5|', '[Na+].[Cl-]>>[Na+].[Cl-] |f:0.1,2.3|', 'C.C.C>>C |f:0.2|',
+              'C>>C |f:0.1|', 'C.[O]>>C[O] |^1:1,3|', 'C[O] |^1:1,1|', 'C |^1:0|', 'C |^1:5|', 'C.C |f:0.1|', '[CH3:1][OH:2]>>[CH3:1].[OH2:2]']
+    cases = ck.select('lines', [{'key': s, 's': s} for s in sorted(set(lines))])
+    if cases:
+        recs = pmap('checks.c03', 'observe_line', cases)
+        ck.validate('lines', 'Trace_C03rx', cases, recs)
+        ck.count('reactions', sum(r['rx'] for r in recs))
+        ck.count('cx-blocks', sum(1 for r in recs if r['cx']))
     ck.assumptions += ['isotope tabulation is taken from the working tree (consistency of that table is C18)',
                        'a branch opened before the first atom is Unspecified (the parser tolerates it)',
                        'CXSMILES blocks and reaction arrows are validated by the Cx part (Trace_Cx)']
